@@ -432,6 +432,8 @@ def eigh(a):
 
 @eigh.register(FermionicArray)
 def eigh_fermionic(a):
+    # the decomposition acts on the raw blocks: apply any lazy phases first
+    a = a.phase_sync()
     eigenvalues, eigenvectors = eigh.dispatch(AbelianArray)(a)
 
     if not a.indices[1].dual:
@@ -483,6 +485,9 @@ def solve(a, b):
 
 @solve.register(FermionicArray)
 def solve_fermionic(a, b):
+    # the solve acts on the raw blocks: apply any lazy phases first
+    a = a.phase_sync()
+    b = b.phase_sync()
     x = solve.dispatch(AbelianArray)(a, b)
 
     if x.indices[0].dual:
